@@ -89,7 +89,14 @@ func (d *database[T, O]) startRotationTask() error {
 					defer d.rotationProcessOn.Store(false)
 					t := time.Unix(0, ts)
 					if rt != nil {
-						rt.run(taskCtx, t, d.logger)
+						// The event time comes from written data and may lie in the future
+						// (clock skew, a misbehaving client). It must never move the retention
+						// deadline past the wall clock, or segments younger than the TTL are removed.
+						retentionNow := t
+						if now := d.segmentController.clock.Now(); retentionNow.After(now) {
+							retentionNow = now
+						}
+						rt.run(taskCtx, retentionNow, d.logger)
 					}
 					func() {
 						ss, err := d.segmentController.segments(taskCtx, true) // Ensure segments are open
